@@ -74,6 +74,24 @@ def dictify_segment_circle(s: schemdraw.segments.SegmentCircle) -> dict[str, Any
         'visible' : serialize_schemdraw_element(s.visible)
         }
 
+def dictify_segment_arc(s: schemdraw.segments.SegmentArc) -> dict[str, Any]:
+    return {
+        'center' : serialize_schemdraw_element(s.center),
+        'width' : serialize_schemdraw_element(s.width),
+        'height' : serialize_schemdraw_element(s.height),
+        'theta1' : serialize_schemdraw_element(s.theta1),
+        'theta2' : serialize_schemdraw_element(s.theta2),
+        'arrow' : serialize_schemdraw_element(s.arrow),
+        'angle' : serialize_schemdraw_element(s.angle),
+        'color' : serialize_schemdraw_element(s.color),
+        'lw' : serialize_schemdraw_element(s.lw),
+        'ls' : serialize_schemdraw_element(s.ls),
+        'fill' : serialize_schemdraw_element(s.fill),
+        'clip' : serialize_schemdraw_element(s.clip),
+        'zorder' : serialize_schemdraw_element(s.zorder),
+        'visible' : serialize_schemdraw_element(s.visible)
+        }
+
 def dictify_transform(t: schemdraw.transform.Transform) -> dict[str, Any]:
     return {
         'theta' : serialize_schemdraw_element(t.theta),
@@ -95,6 +113,7 @@ schemdraw_serializers = {
     schemdraw.segments.Segment: lambda x: schemdraw_object_properties(x, dictify_segment),
     schemdraw.segments.SegmentText: lambda x: schemdraw_object_properties(x, dictify_segment_text),
     schemdraw.segments.SegmentCircle: lambda x: schemdraw_object_properties(x, dictify_segment_circle),
+    schemdraw.segments.SegmentArc: lambda x: schemdraw_object_properties(x, dictify_segment_arc), # the coil of the inductor symbol
     schemdraw.transform.Transform: lambda x: schemdraw_object_properties(x, dictify_transform)
 }
 
@@ -125,6 +144,7 @@ schemdraw_deserializers = {
     str(schemdraw.segments.Segment.__name__) : lambda x: schemdraw.segments.Segment(**deserialize_schemdraw_elements(x)), # type: ignore
     str(schemdraw.segments.SegmentText.__name__) : lambda x: schemdraw.segments.SegmentText(**deserialize_schemdraw_elements(x)),
     str(schemdraw.segments.SegmentCircle.__name__) : lambda x: schemdraw.segments.SegmentCircle(**deserialize_schemdraw_elements(x)),
+    str(schemdraw.segments.SegmentArc.__name__) : lambda x: schemdraw.segments.SegmentArc(**deserialize_schemdraw_elements(x)),
     str(schemdraw.util.Point.__name__) : lambda *x: schemdraw.util.Point(*x),
     str(schemdraw.transform.Transform.__name__) : lambda x: schemdraw.transform.Transform(**deserialize_schemdraw_elements(x)),
 }
